@@ -58,6 +58,25 @@ def frame_section():
     guarded = all(_guarded_by_group_test(fn, n) for n in sites)
     s.obl("pvl.encoder.PDSLabelEncoder.encode:conversion-only-for-a-group-value-followed-by-break", DISCHARGED if guarded else FAILED,
           "frame", function="pvl.encoder.PDSLabelEncoder.encode")
+    # the positional branch of _replace_value is selected by an isinstance test: it must cover every bundled multi-dict class
+    # (assignment by key drops the later items with that key in both families: C10 contract / multidict semantics)
+    ci2, rv = prog.function("pvl.encoder.PDSLabelEncoder._replace_value")
+    tests = [n for n in ast.walk(rv) if isinstance(n, ast.Call) and ast.unparse(n.func) == "isinstance" and len(n.args) == 2
+             and ast.unparse(n.args[0]) == rv.args.args[0].arg]
+    import importlib
+    pe, pc = importlib.import_module("pvl.encoder"), importlib.import_module("pvl.collections")
+    multi = [getattr(pc, nm) for nm in ("OrderedMultiDict", "PVLModule", "PVLGroup", "PVLObject", "PVLMultiDict", "PVLModuleNew",
+                                        "PVLGroupNew", "PVLObjectNew") if hasattr(pc, nm)]
+    covered = False
+    for t in tests:
+        try:
+            tested = eval(compile(ast.Expression(t.args[1]), "<isinstance>", "eval"), vars(pe))
+            covered = covered or all(issubclass(c, tested) for c in multi)
+        except Exception:
+            pass
+    s.obl("pvl.encoder.PDSLabelEncoder._replace_value:the-by-position-branch-covers-every-bundled-multi-dict-class",
+          DISCHARGED if covered and len(multi) >= 4 else FAILED, "ground", detail=f"{[ast.unparse(t) for t in tests]} over "
+          f"{[c.__name__ for c in multi]}", function="pvl.encoder.PDSLabelEncoder._replace_value")
     # determinism: no nondeterministic source is read by the encoder module
     bad = call_sites("pvl.encoder", {"now", "today", "time", "random", "randint", "choice", "getenv", "urandom", "uuid4", "id", "hash"})
     s.obl("pvl.encoder:no-time-random-environment-reads", DISCHARGED if not bad else FAILED, "frame",
